@@ -190,23 +190,38 @@ def _rollover():
     return body[1]
 
 
-def rollover_guard_max_days():
-    """removal only `if self.max_days:`; listing = sorted paths of the directory of the current file except 'current';
-    every file of the slice is removed with os.remove, in order"""
+def _rollover_parts():
     i = _rollover()
-    if len(i.body) != 2 or i.orelse:
-        raise Shape('doRollover: expected with + for')
-    w, loop = i.body
+    if len(i.body) != 3 or i.orelse:
+        raise Shape('doRollover: expected prefix assignment + with + for')
+    return i, i.body[0], i.body[1], i.body[2]
+
+
+def rollover_guard_max_days():
+    """removal only `if self.max_days:`; the listing is taken from the directory of the current file;
+    every file of the slice is removed with os.remove, in order"""
+    i, _, w, loop = _rollover_parts()
     ok = _norm(i.test) == 'self.max_days' and isinstance(w, ast.With) and len(w.items) == 1 \
         and _norm(w.items[0].context_expr) == 'os.scandir(dirname(self.baseFilename))' \
-        and [_norm(s) for s in w.body] == ["files=sorted((entry.pathforentryinitifentry.name!='current'))"] \
+        and _norm(w.items[0].optional_vars) == 'it' and len(w.body) == 1 \
         and isinstance(loop, ast.For) and [_norm(s) for s in loop.body] == ['os.remove(filepath)'] \
         and _norm(loop.target) == 'filepath' and not loop.orelse
     return 'bool', cbool(ok)
 
 
+def rollover_lists_own_logs():
+    """files = sorted(paths of the entries whose name starts with rootname + '-', ends with '.log' and which are
+    regular files (symlinks not followed)) -- repaired by f977176"""
+    _, pre, w, _ = _rollover_parts()
+    ok = _norm(pre) == "prefix=self.rootname+'-'" and isinstance(w, ast.With) and len(w.body) == 1 \
+        and _norm(w.body[0]) == ("files=sorted((entry.pathforentryinitifentry.name.startswith(prefix)and"
+                                 "entry.name.endswith('.log')andentry.is_file(follow_symlinks=False)))")
+    return 'bool', cbool(ok)
+
+
 def rollover_slice_code():
-    """0: files[-self.max_days:] (the newest are removed), 1: files[:-self.max_days] (the newest are kept)"""
+    """0: files[-self.max_days:] (the newest are removed -- the defect repaired by 8755e5f), 1: files[:-self.max_days]
+    (the newest are kept); C20_source_facts demands 1"""
     i = _rollover()
     loops = [n for n in i.body if isinstance(n, ast.For)]
     if len(loops) != 1:
@@ -222,7 +237,7 @@ def rollover_slice_code():
 FACTS = [OFF, COMLOG, log_levels_table_shape, check_level_shape, handle_shape, handle_compares_ge,
          set_conn_level_shape, module_sets_own_name, set_all_iterates_all_modules, handle_logging_shape,
          reset_sets_all_off, remove_calls_reset, ident_calls_reset, send_log_msg_shape,
-         rollover_guard_max_days, rollover_slice_code]
+         rollover_guard_max_days, rollover_lists_own_logs, rollover_slice_code]
 
 FINGERPRINTS = {
     'logging.check_level': lambda: find_func(parse(LOGGING), 'check_level'),
